@@ -23,8 +23,11 @@ def main():
     sys.dont_write_bytecode = True
 
     from sim import simlock, simclock
-    simclock.install()     # the clock seam, likewise before the package is imported
-    simlock.install()      # before the package is imported: locks it creates are visible to the scheduler
+    simclock.install()     # the clock seam, before the package is imported
+    if os.environ.get('VERIF_ZYGOTE_KIND', 'api') == 'api':
+        # the lock seam is only needed where threads are scheduled (engine apisim); the CLI engine keeps the real
+        # primitives so that a command using multiprocessing / queues runs on the genuine article
+        simlock.install()  # before the package is imported: locks it creates are visible to the scheduler
 
     import python_minifier
     import python_minifier.__main__ as pm_main  # noqa: F401  (imported, not run)
